@@ -347,6 +347,7 @@ def run(rep, ctx):
     with rep.guard("R11.3"):
         r11_3(rep, M, E, "R11.3")
     with rep.guard("R11.4"):
+        id_without_parameters(rep, M, "R11.4")
         fn = M.func(SA + ".get_material_id")
         flag = [t for t in ast.walk(fn) if isinstance(t, ast.If) and "n_pbc" in norm(t.test) and "2" in norm(t.test)
                 and any("2D" in norm(s) for s in t.body)]
@@ -404,3 +405,21 @@ META = {
     "note": "trusted: CPython ast; the repository model; C20's rules for swap_basis / get_minimized_cell themselves.",
     "technique": "must-pass-through CFG queries + def-use argument rules",
 }
+
+
+def id_without_parameters(rep, M, rid):
+    """get_material_id is computed from letters, species and multiplicities: it asks for the Wyckoff sets *without* the free parameters. With them the id
+    depends on the parameter solver, which raises for layers whose standard setting differs along the non-periodic axis (known finding D15) - the id of such a
+    2D material would stop existing"""
+    fq = SA + ".get_material_id"
+    calls = M.calls_to(fq, SA + ".get_wyckoff_sets_conventional")
+    if not calls:
+        raise AnalysisError("get_material_id: call of get_wyckoff_sets_conventional not found")
+    for c in calls:
+        v = M.bind_args(SA + ".get_wyckoff_sets_conventional", c).get("return_parameters")
+        if isinstance(v, ast.Constant) and v.value is False:
+            rep.ok(rid, "get_material_id reads the Wyckoff sets without free parameters")
+        else:
+            dflt = "the default (True)" if v is None else f"`{norm(v)}`"
+            rep.violation(rid, "get_material_id: Wyckoff sets with parameters", f"get_wyckoff_sets_conventional is called with return_parameters = {dflt}: the id now needs the "
+                          "parameter solver to succeed, and it raises ValueError for 2D layers whose standard setting differs along the non-periodic axis (D15)", M.where(fq, c))
